@@ -224,6 +224,12 @@ bool XmlNode::isComment() const
 
 std::string XmlNode::name() const
 {
+    // Note: some kinds of nodes (e.g. CDATA sections) have no name.
+
+    if (mPimpl->mXmlNodePtr->name == nullptr) {
+        return {};
+    }
+
     return reinterpret_cast<const char *>(mPimpl->mXmlNodePtr->name);
 }
 
